@@ -119,6 +119,12 @@ def build_world(ctx):
             zone_number(n), ntrans=0 if n in FILE_NAMES[-2:] else 6)
     for n in FILE2_NAMES:
         specs[ZW.ZI2 + "/" + n] = ZW.simple_zone(zone_number(n))
+    # one zone with a NEGATIVE saving (standard time in summer, the daylight
+    # flag on the winter type, as Europe/Dublin has it)
+    neg = ZW.simple_zone(zone_number(FILE_NAMES[7]))
+    std = neg["types"][0][0]
+    neg["types"] = [(std, False, "IST"), (std - 3600, True, "GMT")]
+    specs[ZW.ZI1 + "/" + FILE_NAMES[7]] = neg
     specs[ZW.ZI1 + "/" + DUP_NAME] = ZW.simple_zone(zone_number(DUP_NAME))
     specs[ZW.ZI2 + "/" + DUP_NAME] = ZW.simple_zone(40)
     specs[ZW.ZI1 + "/Sp_ace/Y"] = ZW.simple_zone(zone_number("Sp_ace/Y"))
